@@ -182,7 +182,8 @@ class WaitUntilDecoratorManager(DecoratorManager):
         self.timeout_decorator = None
         if (timeout := kwargs.get("timeout")) is not None:
             to_dec = DecoratorRegistry._decorators.get("time_trigger")
-            self.timeout_decorator = to_dec([f"once(now + {timeout}s)"], {})
+            # a negative timeout has already expired, like a zero one
+            self.timeout_decorator = to_dec([f"once(now + {max(timeout, 0)}s)"], {})
             self.add(self.timeout_decorator)
 
     async def dispatch(self, data: DispatchData) -> None:
